@@ -91,8 +91,18 @@ def _gen_faults(rng, seed, tier):
 
 
 def _gen_rejects(rng, seed, tier):
+    # invalid configurations must be rejected under ANY flow, including no flow at all and
+    # rigid rotation (zero strain rate), where no texture-forming work would be done anyway
+    fams = None
+    c = rng.random()
+    if c < 0.2:
+        fams = ["zero"]
+    elif c < 0.35:
+        fams = ["rotation"]
+    elif c < 0.45:
+        fams = ["gated"]
     world = S.gen_world(rng, regimes=[G.R_MDISL] * 3 + [G.R_YIELD],
-                        n_choices=[2, 3, 4, 8, 16])
+                        n_choices=[2, 3, 4, 8, 16], flow_families=fams)
     base_ops = S.gen_history_ops(rng, world, total=rng.choice([0.2, 0.5, 1.0]),
                                  n_max=rng.choice([2, 4, 6]))
     ops = []
@@ -125,7 +135,9 @@ def _gen_rejects(rng, seed, tier):
             ops.append(r)
         else:
             ops.append(op)
-    return {"property": PROPERTY, "engine": "world", "seed": seed, "mode": "rejects",
+    flowtag = "zeroL" if fams == ["zero"] else "rotation" if fams == ["rotation"] else \
+        "gated" if fams == ["gated"] else "flow"
+    return {"property": PROPERTY, "engine": "world", "seed": seed, "mode": "rejects:" + flowtag,
             "world": world, "ops": ops}
 
 
@@ -317,6 +329,7 @@ class C07Monitor:
                 self._null(world, i, op, r)
         if rec["op"] == "update" and op.get("expect") == "reject" and rec["status"] == "raised":
             self.inc("rejections_observed")
+            self.inc("rejections_observed." + self.scn["mode"].split(":")[-1])
         if "retry_of" in op and rec["status"] == "raised":
             src = world.log[op["retry_of"]]
             if src.get("dry") and src["dry"]["ok"]:
@@ -439,7 +452,8 @@ ASSUMPTIONS = [
     "mismatched (phase, fabric) pairs are only required to be rejected in dislocation-type regimes, where the fabric is used",
     "scipy LSODA trusted as a black box",
 ]
-PROBES = [f"fault_fired_in_solver_loop.{k}" for k in
+PROBES = ["rejections_observed.zeroL", "rejections_observed.rotation"] + \
+         [f"fault_fired_in_solver_loop.{k}" for k in
           ("L_raises", "position_raises", "regime_raises", "solver_failed", "params_key_missing",
            "regime_unsupported", "L_malformed", "L_nonfinite")] + \
          ["fault_fired.phase_not_in_assemblage", "recoveries_checked", "rejections_observed",
